@@ -241,7 +241,7 @@ func (g *Registry) observe(e iface.IPFSLogEntry, genuine bool) int {
 	rec := g.recs[id-1]
 	if genuine {
 		if _, ok := g.orig[id]; !ok {
-			d := Digest(e)
+			d := LogicalDigest(e)
 			if did, ok := g.digs[d]; ok {
 				g.orig[id] = did
 			} else {
@@ -330,7 +330,15 @@ func (g *Registry) Size() int {
 }
 
 // Digest hashes everything observable about an entry object.
-func Digest(e iface.IPFSLogEntry) string {
+func Digest(e iface.IPFSLogEntry) string { return digest(e, true) }
+
+// LogicalDigest covers every field but the additional data: with a link-sealing codec the writer's
+// object carries the sealed form of its links there, a copy decoded from the store does not (its links
+// are decrypted into next/refs), although both are the same entry.  Used wherever objects held by
+// DIFFERENT logs are compared; the full digest is used to compare one object with itself over time.
+func LogicalDigest(e iface.IPFSLogEntry) string { return digest(e, false) }
+
+func digest(e iface.IPFSLogEntry, withAdditional bool) string {
 	if e == nil || !e.Defined() {
 		return "nil"
 	}
@@ -371,6 +379,10 @@ func Digest(e iface.IPFSLogEntry) string {
 	} else {
 		w([]byte("noident"))
 	}
+	if !withAdditional {
+		w([]byte("logical"))
+		return hex.EncodeToString(h.Sum(nil)[:12])
+	}
 	ad := e.GetAdditionalData()
 	keys := make([]string, 0, len(ad))
 	for k := range ad {
@@ -408,7 +420,9 @@ type RepState struct {
 	Lid        string   `json:"lid"`
 	NilKeys    int      `json:"nilkeys"`  // keys the entry index lists without holding an entry for them
 	Bad        []BadRec `json:"bad"`      // tampered copies this replica holds (ground truth from the script)
-	OrigDigs   []int    `json:"origdigs"` // digest id each entry of Ents had when it was first observed
+	LDigs      []int    `json:"ldigs"`    // logical digest ids (all fields but the additional data) aligned with Ents
+	OrigDigs   []int    `json:"origdigs"` // logical digest id each entry of Ents had when it was first observed
+	Mixed      bool     `json:"mixed"`    // ground truth: this log was built (NewLog with entries) on the entries of a log with another id
 	StrIDs     []int    `json:"strids"`   // ToString(): the entry of each line ...
 	StrDepth   []int    `json:"strdepth"` // ... and its indentation depth (number of entries FindChildren returned)
 }
@@ -470,6 +484,7 @@ func Project(g *Registry, pool *Pool, l *ipfslog.IPFSLog, pure bool) RepState {
 	st.ClkW = pool.RankOfKey(l.Clock.GetID())
 	st.Len = l.Len()
 	st.Digs = []int{}
+	st.LDigs = []int{}
 	st.GetDigs = []int{}
 	for _, e := range entries.Slice() {
 		if e == nil || !e.Defined() {
@@ -478,6 +493,7 @@ func Project(g *Registry, pool *Pool, l *ipfslog.IPFSLog, pure bool) RepState {
 			continue
 		}
 		st.Digs = append(st.Digs, g.DigID(Digest(e)))
+		st.LDigs = append(st.LDigs, g.DigID(LogicalDigest(e)))
 		got, ok := l.Get(e.GetHash())
 		if !ok {
 			st.GetDigs = append(st.GetDigs, 0)
